@@ -48,6 +48,11 @@ func HarnessC17Response() {
 		// an earlier NewTemplate call of the same process with the opposite debug setting
 		prev, perr := NewTemplate(&config.Config{TemplateDir: "templates", TemplateExt: ".tw", DebugMode: !debug})
 		vAssert(perr == nil && prev != nil, "templates-load")
+		if vChoice("used-before", 2) == 1 {
+			// ... that has already served a failing request under that setting
+			w0 := &vWriter{}
+			vAssert(prev.Response(w0, "absent", nil) != nil, "failure-returns-a-non-nil-error")
+		}
 	}
 	cfg := &config.Config{TemplateDir: "templates", TemplateExt: ".tw", DebugMode: debug}
 	switch errCfg {
